@@ -13,7 +13,11 @@ func init() {
 		c.deferred = true
 		badRaw := []string{"Z:0.0.0.00", "Z:1.4.0.82", "Z:2.0.1.0000", "Z:2.0.0.0000000000", "Z:3.0.1.00", "Z:3.0.0.00000008", "Z:4.0.1.-", "Z:4.1.0.000000000000", "Z:4.0.0.0102",
 			"Z:6.0.0.0102", "Z:6.0.1.0000000000000000", "Z:7.0.0.00", "Z:7.0.1.0000000000000000", "Z:8.0.0.00000000", "Z:8.0.1.00000000", "Z:8.0.1.000000", "Z:9.4.1.82", "Z:9.0.0.82",
-			"Z:8.0.0.80000000", "Z:8.0.1.80000000", "Z:8.0.0.80000001", "Z:0.8.1.-", "Z:1.8.1.-", "Z:1.36.1.01020304", "Z:0.8.1.0501", "Z:1.12.1.0582", "Z:5.4.1.0000000282", "Z:4.0.0.000480000000"}
+			"Z:8.0.0.80000000", "Z:8.0.1.80000000", "Z:8.0.0.80000001", "Z:0.8.1.-", "Z:1.8.1.-", "Z:1.36.1.01020304", "Z:0.8.1.0501", "Z:1.12.1.0582", "Z:5.4.1.0000000282", "Z:4.0.0.000480000000",
+			// HEADERS with PADDED and PRIORITY: a pad length that fits the payload as a whole but not what is left after the
+			// five priority octets (R-5 < P <= R), at both ends of that range, with and without END_STREAM; padded PUSH_PROMISE
+			"Z:1.44.1.04000000000f8287", "Z:1.44.1.03000000000f8287", "Z:1.44.1.07000000000f8287", "Z:1.45.1.06000000000f8287",
+			"Z:1.40.1.0500000000ff82", "Z:1.44.1.0100000000ff", "Z:1.44.1.05000000000f", "Z:5.12.1.0700000002828787", "Z:5.12.1.0300000002"}
 		for i := 0; i < c.count; i++ {
 			r := c.rng.fork()
 			maxStreams := []int{100, 100, 3, 1}[r.intn(4)]
